@@ -35,6 +35,7 @@ func checkC04(c *Ctx) {
 	c.MinCount("R4.3", 2)
 	c.MinCount("R4.4", 2)
 	c.MinCount("R4.6", 12)
+	ruleDispatch(c, dv, "R4.9", true, false) // an action key press that never reaches the key handler changes nothing
 	c.MinCount("R4.7", 4)
 	c.MinCount("R4.8", 5)
 	c.DecidedClause("the pitch compared with 0..127 in NoteOn/AnalogNoteOn is the affine form base + 12*octave + semitone computed in int (no 8/16-bit intermediate), every emission is guarded by that value being in [0,127], the channel is (channel + offset) mod 16 and key presses use the configured velocity")
